@@ -52,6 +52,7 @@ type Exec struct {
 	nextObj    int
 	sentinels  map[string]int
 	pools      map[int]int
+	inSpawned  int
 	curDepth   int
 	lastNow    *Term
 	deadline   time.Time
@@ -664,7 +665,7 @@ func (e *Exec) runFrameWithDefers(st *State, fr *Frame) []Outcome {
 			continue
 		}
 		f := r.fr
-		if f == nil || len(f.defers) == 0 {
+		if f == nil || len(f.defers) == 0 || r.st.parked {
 			out = append(out, Outcome{st: r.st, panicked: true})
 			continue
 		}
